@@ -94,7 +94,7 @@ func main() {
 			c.Storage = []string{"memory", "disk"}[(i/2)%2]
 			c.OCSP = ocsps[(i/3)%3]
 			c.ExtMode = i % 4
-			c.Width = []int{0, 1, 2, 8, 16, 20}[i%6]
+			c.Width = []int{0, 1, 2, 8, 16, 20, 21}[i%7]
 		} else {
 			c.Mode = modes[rng.Intn(4)]
 			c.Source = sources[rng.Intn(4)]
@@ -103,7 +103,7 @@ func main() {
 			c.Storage = []string{"memory", "disk"}[rng.Intn(2)]
 			c.OCSP = ocsps[rng.Intn(3)]
 			c.ExtMode = rng.Intn(4)
-			c.Width = []int{0, 0, 1, 2, 3, 8, 16, 19, 20}[rng.Intn(9)]
+			c.Width = []int{0, 0, 1, 2, 3, 8, 16, 19, 20, 21}[rng.Intn(10)]
 		}
 		c.Second = i%3 == 0
 		c.Chain = []string{"leaf-int-root", "leaf-int-root", "leaf-int", "leaf-only", "two-chains"}[i%5]
